@@ -1802,6 +1802,15 @@ func ruleDeferUnlock(r *Run) {
 		return
 	}
 	reach := r.reachableFrom(m.Dispatch)
+	// whatever shape the dispatch has (a table of adapters the call graph does not see through), the handlers it
+	// ends in run under the per-message recover
+	for _, h := range m.Handlers {
+		if h.Fn != nil {
+			for f := range r.reachableFrom(h.Fn) {
+				reach[f] = true
+			}
+		}
+	}
 	n := 0
 	var fns []*Func
 	for f := range reach {
